@@ -5,6 +5,7 @@ package flight12
 //symgo:replace github.com/pion/dtls/v3/pkg/crypto/prf.PreMasterSecret zzStPreMasterSecret
 //symgo:replace github.com/pion/dtls/v3/pkg/crypto/prf.MasterSecret zzStMasterSecret
 //symgo:replace github.com/pion/dtls/v3/pkg/crypto/prf.VerifyDataServer zzVerifyDataServer
+//symgo:replace github.com/pion/dtls/v3/pkg/crypto/prf.VerifyDataClient zzVerifyDataClient
 //symgo:replace github.com/pion/dtls/v3/internal/handshakecrypto.VerifyCertificateVerify zzStVerifyCertificateVerify
 //symgo:stub prf.PreMasterSecret (ECDH) and prf.MasterSecret / prf.VerifyDataServer (TLS PRF) are uninterpreted functions of their byte arguments; handshakecrypto.VerifyCertificateVerify returns an arbitrary verdict chosen by the harness; the cipher suite is a harness fake (certificate-authenticated ECDHE, custom id) that records Init
 //symgo:assume the handshake cache holds complete, unfragmented messages with consistent headers (see fin.go)
@@ -61,18 +62,22 @@ func zzHS(seq uint16, m handshake.Message) []byte {
 	return zzRaw(h)
 }
 
-// cert_disables_resume and the server's store write: flight4Parse (server, full handshake, session store
-// configured, session id of 1..SSID arbitrary bytes as sent in the ServerHello) on a client flight that is
-// ClientKeyExchange alone, or Certificate + ClientKeyExchange + CertificateVerify (signature verdict
-// arbitrary), or Certificate + ClientKeyExchange with the CertificateVerify still missing. Proved:
-//   - without a client certificate the session is written exactly once as Set(key = session id, id = session id,
-//     secret = the master secret this connection's record keys are initialised from) - so what a later
-//     handleHelloResume finds under that id is the secret of THIS connection;
-//   - when the client presents a certificate the session id is cleared and NOTHING is written to the store,
-//     whatever the signature verdict: the session cannot be resumed (a later lookup of the id misses and
-//     resume_lookup shows a miss means full handshake);
+// cert_disables_resume and the content of the server's store write: flight4Parse (server, full handshake,
+// session store configured, client certificate optional (RequestClientCert), session id of 1..SSID arbitrary
+// bytes as sent in the ServerHello) on a client flight that is ClientKeyExchange alone, or Certificate +
+// ClientKeyExchange + CertificateVerify (signature verdict arbitrary), or Certificate + ClientKeyExchange with
+// the CertificateVerify still missing, followed by a client Finished of 12 ARBITRARY bytes. Proved:
+//   - without a client certificate, a handshake that reaches Flight6 has written the session exactly once as
+//     Set(key = session id, id = session id, secret = the master secret this connection's record keys are
+//     initialised from) - so what a later handleHelloResume finds under that id is the secret of THIS connection;
+//   - when the client presents a certificate the session id is cleared and NOTHING is written to the store at
+//     any point, whatever the signature verdict and the Finished: the session cannot be resumed (a later lookup
+//     of the id misses and resume_lookup shows a miss means full handshake);
 //   - a failed CertificateVerify gives a fatal bad_certificate alert and no keys; a missing one leaves the server
 //     waiting without keys.
+//
+// (WHEN the write may happen relative to the Finished / policy checks is the subject of
+// zzSessionStoredOnlyAfterChecks in store_policy.go.)
 //
 //symgo:entry covers=stored_without_cert,cert_not_stored,cert_bad_signature,cert_waiting
 func zzCertDisablesResume() {
@@ -81,7 +86,7 @@ func zzCertDisablesResume() {
 	cfg := zzCfg(base)
 	cfg.LocalCipherSuites = []dtlsconfig.CipherSuite{suite}
 	cfg.LocalPSKCallback = nil
-	cfg.ClientAuth = dtlsconfig.RequireAnyClientCert
+	cfg.ClientAuth = dtlsconfig.RequestClientCert
 	cfg.LocalSignatureSchemes = []signaturehash.Algorithm{{Hash: dtlshash.SHA256, Signature: signature.ECDSA}}
 	store := &zzStore{}
 	store.attach(cfg)
@@ -111,16 +116,19 @@ func zzCertDisablesResume() {
 	if kind == 1 {
 		cv := &handshake.MessageCertificateVerify{HashAlgorithm: dtlshash.SHA256, SignatureAlgorithm: signature.ECDSA, Signature: zzsymBytes("cv_signature", 1)}
 		cache.Push(zzHS(seq, cv), 0, seq, handshake.TypeCertificateVerify, true)
+		seq++
 	}
 	zzStSigOK = zzsymChoice("signature_valid", 2) == 1
+	cache.Push(zzMsg(handshake.TypeFinished, seq, zzsymBytes("client_verify_data", 12)), 1, seq, handshake.TypeFinished, true)
 
 	next, a, err := flight4Parse(context.Background(), zzConn{}, state, cache, cfg)
 
-	// the client Finished has not arrived in any of these runs
-	zzsymAssert(next == 0, "no_flight_before_client_finished")
 	zzsymAssert(len(store.gets) == 0 && len(store.dels) == 0, "full_handshake_only_writes")
 	switch {
 	case kind == 0:
+		if next != Flight6 {
+			return // wrong Finished: see zzSessionStoredOnlyAfterChecks
+		}
 		zzsymAssert(a == nil && err == nil, "no_cert_flight_ok")
 		want := zzsymUF("PRF_master_secret", 3, zzsymUF("ECDH", 2, pub, state.LocalKeypair.PrivateKey), cr[:], sr[:])
 		zzsymAssert(base.inits == 1 && zzsymEqBytes(base.ms, want), "keys_from_this_handshakes_master_secret")
@@ -131,24 +139,25 @@ func zzCertDisablesResume() {
 		zzsymAssert(zzsymEqBytes(found, base.ms), "later_lookup_finds_this_secret")
 		zzsymCover("stored_without_cert")
 	case kind == 2:
-		zzsymAssert(a == nil && err == nil, "waits_for_certificate_verify")
+		zzsymAssert(next == 0 && a == nil && err == nil, "waits_for_certificate_verify")
 		zzsymAssert(base.inits == 0, "no_keys_before_certificate_verify")
 		zzsymAssert(len(store.setKeys) == 0 && len(state.SessionID) == 0, "client_cert_session_not_stored")
 		zzsymCover("cert_waiting")
 	case !zzStSigOK:
 		a = zzAlertOf(a, err)
-		zzsymAssert(a != nil && a.Level == alert.Fatal && a.Description == alert.BadCertificate, "bad_signature_fatal_bad_certificate")
+		zzsymAssert(next == 0 && a != nil && a.Level == alert.Fatal && a.Description == alert.BadCertificate, "bad_signature_fatal_bad_certificate")
 		zzsymAssert(base.inits == 0, "no_keys_after_bad_signature")
 		zzsymAssert(len(store.setKeys) == 0 && len(state.SessionID) == 0, "client_cert_session_not_stored")
 		zzsymCover("cert_bad_signature")
 	default:
-		zzsymAssert(a == nil && err == nil, "cert_flight_ok")
 		zzsymAssert(base.inits == 1, "keys_initialised")
 		zzsymAssert(len(store.setKeys) == 0, "client_cert_session_not_stored")
 		zzsymAssert(len(state.SessionID) == 0, "client_cert_clears_session_id")
 		id, _, _ := store.get(sid)
 		zzsymAssert(id == nil, "client_cert_session_cannot_be_looked_up")
-		zzsymCover("cert_not_stored")
+		if next == Flight6 {
+			zzsymCover("cert_not_stored")
+		}
 	}
 }
 
